@@ -718,6 +718,10 @@ func genRandomCase(g *gen, tier string) {
 		phases = []string{"fill", "drain"}
 	case 2:
 		phases = []string{"fill", "halfdrain", "churn", "refill", "drain"}
+	case 3, 4:
+		// anything the container remembers from one call (a last-hit node, the node of a failed duplicate insert) must
+		// survive a structural change next to that key: touch k, change a neighbour, touch k again, look
+		phases = []string{"fill", "sticky", "churn", "sticky", "drain"}
 	}
 	for _, ph := range phases {
 		switch ph {
@@ -752,6 +756,54 @@ func genRandomCase(g *gen, tier string) {
 			if ph == "drain" {
 				g.remove(vlib.Pick(r, keys)) // on (almost certainly) empty
 				g.observe()
+			}
+		case "sticky":
+			for round := r.Range(2, 8); round > 0; round-- {
+				ks := liveKeys(g.live)
+				if len(ks) == 0 {
+					g.insert(vlib.Pick(r, keys))
+					continue
+				}
+				sort.Ints(ks)
+				i := r.Intn(len(ks))
+				k := ks[i]
+				touch := func() {
+					switch r.Intn(4) {
+					case 0:
+						g.insert(k) // duplicate Add (fails on the tree, overwrites on the maps)
+					case 1:
+						g.overwrite(k)
+					default:
+						g.lookup(k)
+					}
+				}
+				touch()
+				// a structural change at a neighbour: delete the predecessor / successor (its node may be the one that
+				// is physically spliced out in favour of k's, or vice versa), or insert a fresh neighbour
+				switch p := r.Intn(10); {
+				case p < 4 && i > 0:
+					g.remove(ks[i-1])
+				case p < 7 && i+1 < len(ks):
+					g.remove(ks[i+1])
+				case p < 8:
+					g.remove(k)
+				default:
+					g.insert(vlib.Pick(r, keys))
+				}
+				if r.Chance(70) {
+					g.overwrite(k)
+				} else {
+					touch()
+				}
+				g.lookup(k)
+				if r.Chance(50) {
+					g.observe()
+				}
+				if r.Chance(30) {
+					g.remove(k)
+					g.overwrite(k)
+					g.lookup(k)
+				}
 			}
 		default: // churn
 			steps := r.Range(4, 40)
@@ -876,6 +928,9 @@ func generate(tier string, out *vlib.Out) {
 	r := vlib.NewRng(vlib.Seed())
 	// corpus: hand-written cases first
 	corpus := []string{
+		// what a failed duplicate Add / a hit remembers must survive the successor splice of a two-child Delete next to it
+		"new rbtree asc\nadd 2 20\nadd 1 10\nadd 3 30\nadd 3 31\ndelete 2\nset 3 32\nfind 3\nkvs\ndelete 3\nset 3 33\nfind 3\nkvs\nsize",
+		"new pubtree asc\nadd 4 40\nadd 2 20\nadd 6 60\nadd 1 10\nadd 3 30\nadd 5 50\nadd 7 70\nfind 5\nadd 5 51\ndelete 4\nset 5 52\nfind 5\nkvs\nfind 3\nadd 3 31\ndelete 2\nset 3 32\nfind 3\nkvs",
 		// every failing call, on empty and non-empty containers
 		"new rbtree asc\nfind 1\nset 1 5\ndelete 1\nkvs\nsize\nadd 1 10\nadd 1 11\nfind 1\nset 1 12\nset 2 13\nfind 2\ndelete 2\ndelete 1\ndelete 1\nsize\nkvs",
 		"new pubtree desc\nadd 1 10\nadd 2 20\nadd 3 30\nadd 2 21\nkvs\ndelete 2\nfind 2\nset 2 5\nkvs\nsize",
